@@ -734,3 +734,36 @@ def r_accessor_eq(A, ctx, scope, rule="R-ACCESSOR-EQ", select=None):
         except (Unsupported, ZeroDivisionError) as e:
             ctx.ob(rule, key, None, detail=f"not lifted: {e}")
     ctx.floor(rule, n, scope.get("floor", 15))
+
+
+def r_zeroblock(A, ctx, scope, rule="R-ZEROBLOCK"):
+    from ..region import DivByZero
+    ctx.rule(rule, "power method on a block without stored entries: spectral_norm of a CSC block whose "
+             "columns are all empty returns exactly 0 (the dense counterpart, norm(X_g, ord=2), is 0) and "
+             "never divides by the zero norm of X X^T v - a convergence test that cannot pass at 0 "
+             "(strict, or relative to the eigenvalue) makes the next iterate 0 / 0 and the group / global "
+             "Lipschitz constant NaN")
+    f = _func(A, "skglm.utils.sparse_ops", "spectral_norm")
+    n = 0
+    for tag, indptr in (("one empty column", [0, 0]), ("two empty columns", [0, 0, 0])):
+        rg = Region(world())
+        L = RegionLifter(A.prog, rg, max_steps=20000)
+        key = f"{f.fq}::{tag}"
+        try:
+            r = L.call_function(f, [Vec(), Vec(indptr), Vec(), N])
+            n += 1
+            ctx.ob(rule, key, R(r).is_zero(),
+                   what=f"spectral_norm of a block with {tag} returns {R(r)} instead of 0", loc=loc(f, f.node))
+        except DivByZero as e:
+            n += 1
+            ctx.ob(rule, key, False,
+                   what=f"spectral_norm of a block with {tag}: {e} - X X^T v is the zero vector, the convergence "
+                        "test does not stop the iteration and the iterate is renormalised by its zero norm: "
+                        "the returned constant is NaN (sparse group / global Lipschitz constants, hence NaN "
+                        "coefficients where the dense path returns 0)", loc=loc(f, f.node))
+        except Raised as e:
+            n += 1
+            ctx.ob(rule, key, False, what=f"spectral_norm of a block with {tag}: {e}", loc=loc(f, f.node))
+        except (Unsupported, ZeroDivisionError, IndexError) as e:
+            ctx.ob(rule, key, None, detail=f"not lifted: {e}")
+    ctx.floor(rule, n, 2)
